@@ -188,6 +188,45 @@ def cmake_cfg(extra_args=(), tag="cmakecfg"):
     return out
 
 
+def autotools_cfg(extra_args=(), tag="autotoolscfg"):
+    """Runs the repository's own autotools configure step (autogen.sh + ./configure with its defaults) on a scratch
+    copy of the current tree and returns a directory with the coap_config.h / coap3/coap_defines.h it emitted.
+    Nothing is compiled by it; the scratch copy is removed straight afterwards."""
+    ins = [os.path.join(REPO, f) for f in ("configure.ac", "Makefile.am", "autogen.sh", "coap_config.h.in",
+                                           "include/coap3/coap_defines.h.in", "libcoap-3.pc.in")]
+    ins = [f for f in ins if os.path.exists(f)]
+    for root, _, files in os.walk(os.path.join(REPO, "m4")):
+        ins += [os.path.join(root, f) for f in files if f.endswith(".m4") and not f.startswith(("libtool", "lt"))]
+    key = _hash_files(ins, " ".join(extra_args).encode())
+    out = os.path.join(BUILD, "%s-%s" % (tag, key))
+    with _locked(tag):
+        if os.path.exists(os.path.join(out, "coap3", "coap_defines.h")):
+            os.utime(out)
+            return out
+        t0 = time.time()
+        scratch = "/dev/shm/verif-autotools-%d" % os.getpid()
+        shutil.rmtree(scratch, ignore_errors=True)
+        try:
+            rc, txt = _run(["rsync", "-a", "--exclude", ".git", "--exclude", "_build",
+                            REPO + "/", scratch + "/"])
+            if rc != 0:
+                sys.stderr.write(txt)
+                raise SystemExit("BUILD-FAILED autotools copy")
+            rc, txt = _run(["sh", "-c", "cd %s && ./autogen.sh >/dev/null 2>&1 && ./configure --disable-doxygen "
+                            "--disable-manpages --disable-examples %s" % (scratch, " ".join(extra_args))])
+            if rc != 0:
+                sys.stderr.write(txt[-4000:])
+                raise SystemExit("BUILD-FAILED autotools configure")
+            os.makedirs(os.path.join(out, "coap3"), exist_ok=True)
+            shutil.copy(os.path.join(scratch, "coap_config.h"), os.path.join(out, "coap_config.h"))
+            shutil.copy(os.path.join(scratch, "include", "coap3", "coap_defines.h"), os.path.join(out, "coap3", "coap_defines.h"))
+        finally:
+            shutil.rmtree(scratch, ignore_errors=True)
+        log("autotools configure (%s) in %.1fs -> %s" % (" ".join(extra_args), time.time() - t0, out))
+        _prune(tag)
+    return out
+
+
 COMMON_SRCS = ["vx/vx.c"]
 
 
